@@ -487,8 +487,298 @@ pub mod cluster {
     }
 }
 
+
+// ---------------------------------------------------------------------------------------
+// Parts `sqlite-restart` / `lmdb-restart` (E2 on the bundled backends): the same question with the real
+// `SqliteStorage` (file) and `LmdbStorage` underneath.  A life of the node = one runtime; the node stops
+// between requests (its runtime, group, actors and storage handle are dropped), the next life opens the
+// same file / environment again and runs `load_states_from_storage`.
+
+pub mod backend {
+    use std::marker::PhantomData;
+    use std::sync::Arc;
+
+    use datacake_eventual_consistency::verif::{Del, DocVec, KeyspaceGroup, MultiDel, MultiSet, PurgeDeletes, Serialize, Set};
+    use datacake_eventual_consistency::Storage;
+    use datacake_lmdb::LmdbStorage;
+    use datacake_node::Clock;
+    use datacake_sqlite::SqliteStorage;
+    use serde_json::{json, Value};
+
+    use crate::c02::{ks_name, req_json, Req, ReqGen};
+    use crate::core::{Fail, Outcome, Pass, Prop, Src};
+    use crate::e2;
+    use crate::ensure;
+    use crate::model::{view, SetView, Stamp};
+    use crate::registry::{DynPart, Gen};
+
+    const MAX_KS: usize = 3;
+
+    #[derive(Debug, Clone, Copy, PartialEq, Eq)]
+    pub enum Kind {
+        Sqlite,
+        Lmdb,
+    }
+
+    #[derive(Debug, Clone)]
+    pub struct Case {
+        /// the requests of each life of the node; the node stops after the last request of a life
+        pub lives: Vec<Vec<Req>>,
+    }
+
+    pub struct BackendRestart {
+        pub kind: Kind,
+    }
+
+    impl Prop for BackendRestart {
+        type Case = Case;
+
+        fn id(&self) -> &'static str {
+            "C07"
+        }
+
+        fn part(&self) -> &'static str {
+            match self.kind {
+                Kind::Sqlite => "sqlite-restart",
+                Kind::Lmdb => "lmdb-restart",
+            }
+        }
+
+        fn width(&self) -> usize {
+            3 * 10 * 26 + 16
+        }
+
+        fn breadcrumbs(&self) -> bool {
+            true
+        }
+
+        fn process_isolated(&self) -> bool {
+            // see C17: liblmdb's per-thread reader slots do not survive environments that are opened and
+            // closed from many threads of one process
+            self.kind == Kind::Lmdb
+        }
+
+        fn shrink_budget(&self) -> usize {
+            400
+        }
+
+        fn gen(&self, src: &mut Src) -> Case {
+            let mut g = ReqGen::new(src);
+            g.n_ks = 1 + src.below(3);
+            let n_lives = 1 + src.below(3);
+            let lives = (0..n_lives)
+                .map(|_| {
+                    let n = 1 + src.below(10);
+                    (0..n).map(|_| g.req(src)).collect()
+                })
+                .collect();
+            Case { lives }
+        }
+
+        fn run(&self, case: &Case) -> Outcome {
+            let dir = crate::c17::scratch_dir();
+            let r = match self.kind {
+                Kind::Sqlite => run_lives::<SqliteStorage, _, _>(case, &dir, |d| async move { SqliteStorage::open(format!("{d}/db.sqlite")).await.map_err(|e| e.to_string()) }, |_| None),
+                Kind::Lmdb => run_lives::<LmdbStorage, _, _>(case, &dir, |d| async move { LmdbStorage::open(&d).await.map_err(|e| e.to_string()) }, |s: &LmdbStorage| {
+                    Some(s.handle().env().clone())
+                }),
+            };
+            let _ = std::fs::remove_dir_all(&dir);
+            r
+        }
+
+        fn describe(&self, case: &Case) -> Value {
+            json!({
+                "lives": case.lives.iter().map(|l| l.iter().map(req_json).collect::<Vec<_>>()).collect::<Vec<_>>(),
+            })
+        }
+
+        fn rule(&self) -> &'static str {
+            "1-3 lives of a node, each 1-10 keyspace requests as in C02 (set / del / bulk / purge with generated stamps, \
+             origins, sources, 1-3 keyspaces) on a real KeyspaceGroup over the real backend (SqliteStorage file or \
+             LmdbStorage, scratch in /dev/shm); between lives everything of the node is dropped and the same file / \
+             environment is opened again, then load_states_from_storage runs; oracle after every restart: for every \
+             keyspace the backend lists the rebuilt set's live ids / tombstones / stamps equal iter_metadata, unlisted \
+             keyspaces have no state, and every entry the set showed after the last completed request of the previous \
+             life is still there with the same or a newer stamp; non-trivial = the state carried over a restart held \
+             >=1 tombstone and >=1 live id"
+        }
+    }
+
+    async fn send<S: Storage + Send + Sync + 'static>(group: &KeyspaceGroup<S>, req: &Req) -> bool {
+        match req {
+            Req::Set { ks, source, w } => {
+                let m = group.get_or_create_keyspace(&ks_name(*ks)).await;
+                m.send(Set::<S> { source: *source, doc: e2::doc(w.key, w.stamp, w.len), ctx: None, _marker: PhantomData }).await.is_ok()
+            },
+            Req::Del { ks, source, w } => {
+                let m = group.get_or_create_keyspace(&ks_name(*ks)).await;
+                m.send(Del::<S> { source: *source, doc: e2::meta(w.key, w.stamp), _marker: PhantomData }).await.is_ok()
+            },
+            Req::MultiSet { ks, source, ws } => {
+                let m = group.get_or_create_keyspace(&ks_name(*ks)).await;
+                let docs = ws.iter().map(|w| e2::doc(w.key, w.stamp, w.len)).collect();
+                m.send(MultiSet::<S> { source: *source, docs: DocVec::from_vec(docs), ctx: None, _marker: PhantomData }).await.is_ok()
+            },
+            Req::MultiDel { ks, source, ws } => {
+                let m = group.get_or_create_keyspace(&ks_name(*ks)).await;
+                let docs = ws.iter().map(|w| e2::meta(w.key, w.stamp)).collect();
+                m.send(MultiDel::<S> { source: *source, docs: DocVec::from_vec(docs), _marker: PhantomData }).await.is_ok()
+            },
+            Req::Purge { ks } => {
+                let m = group.get_or_create_keyspace(&ks_name(*ks)).await;
+                m.send(PurgeDeletes::<S>(PhantomData)).await.is_ok()
+            },
+        }
+    }
+
+    async fn set_view<S: Storage + Send + Sync + 'static>(group: &KeyspaceGroup<S>, ks: &str) -> SetView {
+        let Some(mailbox) = group.verif_get(ks) else { return SetView::default() };
+        match mailbox.send(Serialize).await {
+            Ok(bytes) => view(&e2::decode_set(&bytes)),
+            Err(_) => SetView::default(),
+        }
+    }
+
+    async fn storage_view<S: Storage>(store: &S, ks: &str) -> Result<SetView, Fail> {
+        let mut v = SetView::default();
+        let it = store.iter_metadata(ks).await.map_err(|e| Fail { signature: "backend-error".into(), message: format!("iter_metadata({ks}) failed: {e}") })?;
+        for (k, ts, tomb) in it {
+            if tomb {
+                v.dead.insert(k, Stamp::of(ts));
+            } else {
+                v.live.insert(k, Stamp::of(ts));
+            }
+        }
+        Ok(v)
+    }
+
+    fn thread_count() -> usize {
+        std::fs::read_dir("/proc/self/task").map(|d| d.count()).unwrap_or(0)
+    }
+
+    fn run_lives<S, O, Fut>(case: &Case, dir: &str, open: O, env_of: impl Fn(&S) -> Option<datacake_lmdb::heed::Env>) -> Outcome
+    where
+        S: Storage + Send + Sync + 'static,
+        O: Fn(String) -> Fut,
+        Fut: std::future::Future<Output = Result<S, String>>,
+    {
+        let mut acked: Option<Vec<SetView>> = None;
+        let mut nontrivial = false;
+        let mut labels = vec![];
+        // one more life than the case has: the last one only restarts and checks
+        for life in 0..=case.lives.len() {
+            let threads_before = thread_count();
+            let rt = tokio::runtime::Builder::new_current_thread().enable_all().build().unwrap();
+            let mut env = None;
+            let res: Result<Vec<SetView>, Fail> = rt.block_on(async {
+                let store = open(dir.to_string()).await.map_err(|e| Fail { signature: "backend-open-failed".into(), message: format!("life {life}: opening the backend failed: {e}") })?;
+                env = env_of(&store);
+                let store = Arc::new(store);
+                let group = KeyspaceGroup::new(store.clone(), Clock::new(9)).await;
+                // the group's hourly purge task ticks once right after it starts (its first timer fires within a
+                // timer-wheel millisecond); let that happen now, while no keyspace is loaded, so that it cannot
+                // (legitimately) purge old tombstones at a moment that depends on thread timing
+                tokio::time::sleep(std::time::Duration::from_millis(3)).await;
+                group.load_states_from_storage().await.map_err(|e| Fail { signature: "load-failed".into(), message: format!("life {life}: load_states_from_storage failed: {e}") })?;
+                if let Some(before) = &acked {
+                    let listed = store.get_keyspace_list().await.map_err(|e| Fail { signature: "backend-error".into(), message: format!("get_keyspace_list failed: {e}") })?;
+                    for k in 0..MAX_KS {
+                        let name = ks_name(k);
+                        let rebuilt = set_view(&group, &name).await;
+                        if listed.contains(&name) {
+                            let st = storage_view(&*store, &name).await?;
+                            ensure!(rebuilt == st, "rebuilt-differs-from-storage", "restart {life}: keyspace {name}: rebuilt set {:?} but storage holds {:?}", rebuilt, st);
+                        } else {
+                            ensure!(rebuilt == SetView::default(), "state-for-unlisted-keyspace", "restart {life}: keyspace {name} is not listed by storage but has state {:?}", rebuilt);
+                        }
+                        for (id, t) in before[k].live.iter() {
+                            let now = rebuilt.live.get(id).or_else(|| rebuilt.dead.get(id));
+                            ensure!(
+                                matches!(now, Some(n) if n >= t),
+                                "acked-write-lost",
+                                "restart {life}: keyspace {name}: id {id} was live at {:?} when the node stopped, the rebuilt set holds {:?} (storage lists keyspaces {:?})",
+                                t,
+                                now,
+                                listed
+                            );
+                        }
+                        let newest = before[k].live.values().chain(before[k].dead.values()).max().copied();
+                        for (id, t) in before[k].dead.iter() {
+                            let now = rebuilt.live.get(id).or_else(|| rebuilt.dead.get(id));
+                            // a purge (the group runs one when it starts) may drop a tombstone that is more than the
+                            // forgiveness period older than the newest entry, from the set and from storage alike
+                            let purgeable = matches!(newest, Some(n) if n.secs >= t.secs + 3_600);
+                            let purged = now.is_none() && purgeable && !storage_view(&*store, &name).await?.dead.contains_key(id);
+                            ensure!(
+                                matches!(now, Some(n) if n >= t) || purged,
+                                "acked-delete-lost",
+                                "restart {life}: keyspace {name}: id {id} was a tombstone at {:?} when the node stopped, the rebuilt set holds {:?} (storage lists keyspaces {:?})",
+                                t,
+                                now,
+                                listed
+                            );
+                        }
+                    }
+                }
+                if let Some(reqs) = case.lives.get(life) {
+                    for (i, r) in reqs.iter().enumerate() {
+                        let ok = send(&group, r).await;
+                        if std::env::var_os("VP_DEBUG").is_some() {
+                            for k in 0..MAX_KS {
+                                let name = ks_name(k);
+                                let sv = set_view(&group, &name).await;
+                                let st = storage_view(&*store, &name).await?;
+                                eprintln!("DEBUG life {life} req {i} ok={ok} {name}: set {:?} | storage {:?}{}", sv, st, if sv != st { "  <-- DIFFER" } else { "" });
+                            }
+                        }
+                    }
+                }
+                let mut views = vec![];
+                for k in 0..MAX_KS {
+                    views.push(set_view(&group, &ks_name(k)).await);
+                }
+                Ok(views)
+            });
+            // the node stops: its tasks, actors and storage handles go away with the runtime
+            drop(rt);
+            if let Some(env) = env {
+                // liblmdb: the worker thread must be gone before the environment is unmapped (see C17)
+                for _ in 0..20_000 {
+                    if thread_count() <= threads_before {
+                        break;
+                    }
+                    std::thread::sleep(std::time::Duration::from_micros(100));
+                }
+                env.prepare_for_closing().wait();
+            }
+            let views = res?;
+            if life < case.lives.len() {
+                let carried = views.iter().any(|v| !v.dead.is_empty()) && views.iter().any(|v| !v.live.is_empty());
+                nontrivial |= carried;
+                if views.iter().any(|v| v.live.is_empty() && !v.dead.is_empty()) && !labels.contains(&"keyspace_of_tombstones_only") {
+                    labels.push("keyspace_of_tombstones_only");
+                }
+                if life >= 1 && !labels.contains(&"restarts>=2") {
+                    labels.push("restarts>=2");
+                }
+            }
+            acked = Some(views);
+        }
+        Ok(Pass { nontrivial, labels })
+    }
+
+    pub fn parts() -> Vec<Box<dyn DynPart>> {
+        vec![
+            Box::new(Gen::new(BackendRestart { kind: Kind::Sqlite }, 6_000, 200_000)),
+            Box::new(Gen::new(BackendRestart { kind: Kind::Lmdb }, 20_000, 600_000)),
+        ]
+    }
+}
+
 pub fn parts_all() -> Vec<Box<dyn DynPart>> {
     let mut p = parts();
     p.extend(cluster::parts());
+    p.extend(backend::parts());
     p
 }
